@@ -44,6 +44,22 @@ def opKdf (a : List String) : String :=
         | none => "err"
       else "bad-op"
     | none => "bad-op"
+  | [ty, "seedzeros", n] =>
+    -- a seed of `n` zero bytes, `n` possibly beyond 2^32: every length above the upper bound is refused on its
+    -- length alone, so the model looks at min(n, 70000) bytes
+    match n.toNat? with
+    | some n =>
+      let seed : Bytes := List.replicate (min n 70000) 0
+      if ty == "elgamal" then
+        match elgamalSecretFromSeed (Sc := CSc) sha3_512 seed with
+        | some s => kpBytes s
+        | none => "err"
+      else if ty == "ae" then
+        match aeKeyFromSeed sha3_512 seed with
+        | some k => s!"ok:{hexOut k}"
+        | none => "err"
+      else "bad-op"
+    | none => "bad-op"
   | [ty, "signer", sigh, seedh] =>
     match ofHex sigh, ofHex seedh with
     | some sig, some ps =>
